@@ -102,12 +102,11 @@ def _brackets_unbalanced(text):
                     depth -= 1
                     if depth < 0:
                         return True
-    except tokenize.TokenError as e:
+    except IndentationError:
+        return depth != 0   # continuation lines of a fragment cut out of brackets may be indented arbitrarily: says nothing about brackets
+    except (tokenize.TokenError, SyntaxError) as e:
         msg = str(e)
-        return depth != 0 or 'unmatched' in msg or 'does not match' in msg or 'was never closed' in msg
-    except (IndentationError, SyntaxError) as e:
-        msg = str(e)
-        return 'unmatched' in msg or 'does not match' in msg or 'was never closed' in msg
+        return depth != 0 or 'unmatched' in msg or ('does not match' in msg and 'parenthesis' in msg) or 'was never closed' in msg
     return depth != 0
 
 
